@@ -144,12 +144,16 @@ func copyHook(o *otto.Otto, kind otto.VerifStepKind, node interface{}) {
 		return
 	}
 	c := crts[o]
-	if c == nil || c.abort < 0 {
+	if c == nil {
 		return
 	}
 	c.steps++
-	if c.steps > c.abort {
+	if c.abort >= 0 && c.steps > c.abort {
 		panic(harnessAbort{"abort op"})
+	}
+	if c.steps > 3000000 {
+		// a mutated workload that no longer terminates: cut it off, identically on node and twin
+		panic(harnessAbort{"step cap"})
 	}
 }
 
